@@ -106,7 +106,7 @@ def ev_ix(ix, inp):
     return ev_ix(ix[1], inp) + ev_ix(ix[2], inp)
 
 
-def ev(e, inp, st):
+def ev(e, inp, st, hints):
     k = e[0]
     if k == 'const': return e[1] % P
     if k == 'var': return st.get(e[1], 0)
@@ -122,31 +122,34 @@ def ev(e, inp, st):
         if i >= len(inp['col']): raise Fail('column index')
         return inp['col'][i]
     if k in ('point', 'tgen', 'oodsPoint'): return inp[k]
-    if k == 'neg': return (-ev(e[1], inp, st)) % P
-    a = ev(e[1], inp, st); b = ev(e[2], inp, st)
+    if k == 'neg': return (-ev(e[1], inp, st, hints)) % P
+    a = ev(e[1], inp, st, hints); b = ev(e[2], inp, st, hints)
     if k == 'add': return (a + b) % P
     if k == 'sub': return (a - b) % P
     if k == 'mul': return a * b % P
     if k == 'fdiv':
         if b == 0: raise Fail('zero divisor')
-        return a * pow(b, P - 2, P) % P
+        h = pow(b, P - 2, P)
+        hints.append(h)         # consumed by Fast.fdivN in exactly this (post-)order
+        return a * h % P
     if k == 'floorDiv': return (a // b if b else 0) % P
     if k == 'powFelt': return pow(a, b, P)
     raise SyntaxError(k)
 
 
 def count_nonzero_terms(prog, inp):
-    """number of executed accumulate statements; Fail if a panic occurs or a term is zero"""
-    st = {}; n = 0
+    """(number of executed accumulate statements, inverses of the field_div divisors in evaluation order); Fail if a
+    panic occurs or a term is zero"""
+    st = {}; n = 0; hints = []
     for guards, s in prog:
         if not all(st.get(g, 0) != 0 for g in guards): continue
-        v = ev(s[-1], inp, st)
+        v = ev(s[-1], inp, st, hints)
         if s[0] == 'set':
             st[s[1]] = v
         else:
             if v == 0: raise Fail(f'term {s[3]} is zero')
             st[s[1]] = 0; n += 1
-    return n
+    return n, hints
 
 
 # ---- candidates -------------------------------------------------------------------------------------
@@ -183,14 +186,14 @@ def find_witness(layout, fn, prog, dims, dyn, expect):
     for attempt in range(64):
         inp = candidate(layout, fn, attempt, dims, dyn)
         try:
-            n = count_nonzero_terms(prog, inp)
+            n, hints = count_nonzero_terms(prog, inp)
         except Fail as e:
             print(f'gen_witness: {layout}.{fn} attempt {attempt}: {e}', file=sys.stderr)
             continue
         if n != expect:
             print(f'gen_witness: {layout}.{fn} attempt {attempt}: {n} of {expect} accumulate statements executed', file=sys.stderr)
             continue
-        return inp, attempt
+        return inp, hints, attempt
     raise SystemExit(f'gen_witness: no witness found for {layout}.{fn} (a coefficient position whose term is identically zero?)')
 
 
@@ -237,9 +240,11 @@ def main(layouts=None):
                     'oodsv': max(g('MASK_SIZE') + g('CONSTRAINT_DEGREE'), mx['oodsv'] + 1),
                     'col': max(ncols + g('CONSTRAINT_DEGREE'), mx['col'] + 1),
                     'trace_length': gvf.index('trace_length') if 'trace_length' in gvf else None}
-            inp, attempt = find_witness(layout, fn, prog, dims, dyn, expect)
+            inp, hints, attempt = find_witness(layout, fn, prog, dims, dyn, expect)
             name = 'witness' + fn.capitalize()
-            parts.append(f'/-- attempt {attempt}; {expect} accumulate statements, all executed with a non-zero term -/\n' + lean_inputs(name, inp))
+            parts.append(f'/-- attempt {attempt}; {expect} accumulate statements, all executed with a non-zero term -/\n' + lean_inputs(name, inp) +
+                         f'\n\n/-- inverses of the {len(hints)} `field_div` divisors of that run, in evaluation order (hints: each one is checked) -/\n'
+                         f'def {name}Inv : List Nat := [' + ', '.join(map(str, hints)) + ']')
         text = (f'/- GENERATED by tools/gen_witness.py (seed "{SEED}"); do not edit.\n'
                 f'   One input per evaluator of layout `{layout}` on which every coefficient position has a non-zero term\n'
                 f'   (found by search, CHECKED by the Lean kernel in Proofs/AstNonvanish*.lean). -/\n'
